@@ -235,13 +235,22 @@ theorem fwdBfly_spec (r : ReducK) (hr : ReducOK q r) (m : StepMeta) (M : Nat) (h
 
 /-! ### all forward levels -/
 
-/-- conditions on the levels of a block of size `2^levels.length`, with root `ρ` and input magnitude `M` -/
-def FwdLevelsOK (q : Nat) (r : ReducK) : ZMod q → List Level → Nat → Prop
-  | _, [], _ => True
-  | ρ, (m, tw) :: rest, M =>
-    M < 2 ^ 64 ∧ BflyOK q m (redBound r m.reduce M) ∧ tw.length + 1 = 2 ^ rest.length ∧
-    (tw ≠ [] → SpmOK q m (redBound r m.reduce M + m.q2bs)) ∧ TwFrom q m.halfBs ρ ρ tw ∧
-    FwdLevelsOK q r (ρ * ρ) rest (fwdOut q r m M tw.isEmpty)
+/-- the decidable numeric schedule check of the forward levels of a block: propagates the exact
+worst-case magnitude `M` through the levels and checks every no-wrap / no-underflow condition -/
+def fwdSchedOK (q : Nat) (r : ReducK) : List StepMeta → Nat → Bool
+  | [], _ => true
+  | m :: rest, M =>
+    let M' := redBound r m.reduce M
+    decide (M < 2 ^ 64) && decide (2 * M' < 2 ^ 64) && decide (M' + m.q2bs < 2 ^ 64) && decide (M' ≤ m.q2bs) &&
+    decide (m.q2bs % q = 0) &&
+    (rest.isEmpty || (decide (q < 2 ^ 31) && decide (m.mask = 2 ^ m.halfBs - 1) && decide (m.halfBs ≤ 32) &&
+      decide (M' + m.q2bs < 2 ^ (2 * m.halfBs)))) &&
+    fwdSchedOK q r rest (fwdOut q r m M rest.isEmpty)
+
+/-- the twiddle conditions of the forward levels of a block with root `ρ` -/
+def FwdTwOK (q : Nat) : ZMod q → List Level → Prop
+  | _, [] => True
+  | ρ, (m, tw) :: rest => tw.length + 1 = 2 ^ rest.length ∧ TwFrom q m.halfBs ρ ρ tw ∧ FwdTwOK q (ρ * ρ) rest
 
 theorem map_take {α β} (f : α → β) (l : List α) (n : Nat) : (l.take n).map f = (l.map f).take n := by
   simp [List.map_take]
@@ -253,24 +262,45 @@ theorem AllLe.take {M : Nat} {v : List Nat} (h : AllLe M v) (n : Nat) : AllLe M 
 theorem AllLe.drop {M : Nat} {v : List Nat} (h : AllLe M v) (n : Nat) : AllLe M (v.drop n) :=
   fun x hx => h x (List.mem_of_mem_drop hx)
 
+theorem isEmpty_of_len {α β} (tw : List α) (rest : List β) (h : tw.length + 1 = 2 ^ rest.length) : tw.isEmpty = rest.isEmpty := by
+  cases rest with
+  | nil => simp at h; subst h; rfl
+  | cons x xs =>
+    have : 2 ≤ 2 ^ (x :: xs).length := by
+      rw [List.length_cons, pow_succ]; have := Nat.one_le_two_pow (n := xs.length); omega
+    cases tw with
+    | nil => simp at h; omega
+    | cons _ _ => rfl
+
 /-- **the executable forward levels refine the mathematical network** -/
 theorem nttLevels_spec (r : ReducK) (hr : ReducOK q r) :
-    ∀ (levels : List Level) (ρ : ZMod q) (M : Nat) (v : List Nat), FwdLevelsOK q r ρ levels M →
-      v.length = 2 ^ levels.length → AllLe M v →
+    ∀ (levels : List Level) (ρ : ZMod q) (M : Nat) (v : List Nat), fwdSchedOK q r (levels.map Prod.fst) M = true →
+      FwdTwOK q ρ levels → v.length = 2 ^ levels.length → AllLe M v →
       (nttLevels r levels v).map (cz q) = dif ρ levels.length (v.map (cz q)) ∧ (nttLevels r levels v).length = v.length := by
   intro levels
   induction levels with
-  | nil => intro ρ M v _ _ _; simp [nttLevels, dif]
+  | nil => intro ρ M v _ _ _ _; simp [nttLevels, dif]
   | cons l rest ih =>
-    intro ρ M v hok hv hle
+    intro ρ M v hs ht hv hle
     obtain ⟨m, tw⟩ := l
-    obtain ⟨hM, hb, htl, hspm, htw, hrest⟩ := hok
+    obtain ⟨htl, htw, htrest⟩ := ht
+    simp only [List.map_cons, fwdSchedOK, Bool.and_eq_true, decide_eq_true_eq, Bool.or_eq_true, List.isEmpty_map] at hs
+    obtain ⟨⟨⟨⟨⟨⟨hM, h1⟩, h2⟩, h3⟩, h4⟩, h5⟩, hsrest⟩ := hs
+    have hemp := isEmpty_of_len tw rest htl
+    have hb : BflyOK q m (redBound r m.reduce M) := ⟨h1, h2, h3, Nat.dvd_of_mod_eq_zero h4⟩
+    have hspm : tw ≠ [] → SpmOK q m (redBound r m.reduce M + m.q2bs) := by
+      intro hne
+      have : rest.isEmpty = false := by rw [← hemp]; cases tw <;> simp_all
+      rw [this] at h5
+      simp only [Bool.false_eq_true, false_or] at h5
+      exact ⟨h5.1.1.1, h5.1.1.2, h5.1.2, h5.2⟩
     have hv' : v.length = 2 ^ (rest.length + 1) := by simpa using hv
-    obtain ⟨h2, hlo, hhi⟩ := halves_length v rest.length hv'
+    obtain ⟨_, hlo, hhi⟩ := halves_length v rest.length hv'
     obtain ⟨e1, e2, b1, b2, n1, n2⟩ := fwdBfly_spec r hr m M hM hb ρ tw (v.take (v.length / 2)) (v.drop (v.length / 2))
       (by rw [hlo]; exact htl) (by rw [hlo, hhi]) (hle.take _) (hle.drop _) hspm htw
-    obtain ⟨i1, j1⟩ := ih (ρ * ρ) _ _ hrest (by rw [n1, hlo]) b1
-    obtain ⟨i2, j2⟩ := ih (ρ * ρ) _ _ hrest (by rw [n2, hlo]) b2
+    rw [hemp] at b1 b2
+    obtain ⟨i1, j1⟩ := ih (ρ * ρ) _ _ hsrest htrest (by rw [n1, hlo]) b1
+    obtain ⟨i2, j2⟩ := ih (ρ * ρ) _ _ hsrest htrest (by rw [n2, hlo]) b2
     simp only [nttLevels, List.length_cons, dif, List.map_append, List.length_map]
     rw [i1, i2, e1, e2, map_take, map_drop]
     refine ⟨rfl, ?_⟩
@@ -311,7 +341,7 @@ def FwdTableOK (q : Nat) (t : TableK) (ω : ZMod q) : Prop :=
   | [] => False
   | (m0, tw0) :: rest =>
     SpmOK q m0 (2 ^ 64 - 1) ∧ tw0.length = 2 ^ rest.length ∧ TwFrom q m0.halfBs ω 1 tw0 ∧
-    FwdLevelsOK q t.reduc (ω * ω) rest (spmBound q m0.halfBs (2 ^ 64 - 1))
+    fwdSchedOK q t.reduc (rest.map Prod.fst) (spmBound q m0.halfBs (2 ^ 64 - 1)) = true ∧ FwdTwOK q (ω * ω) rest
 
 /-- **`ntt_ref` (one lane) computes `nttM ω` modulo `q`** on every `u64` input vector -/
 theorem nttK_spec (t : TableK) (ω : ZMod q) (ok : FwdTableOK q t ω) (v : List Nat)
@@ -321,12 +351,12 @@ theorem nttK_spec (t : TableK) (ω : ZMod q) (ok : FwdTableOK q t ω) (v : List 
   unfold nttK nttM
   match hlv : t.levels, hl with
   | (m0, tw0) :: rest, hl =>
-    obtain ⟨sp, htl, htw, hrest⟩ := hl
+    obtain ⟨sp, htl, htw, hsched, htwr⟩ := hl
     have hv' : v.length = 2 ^ rest.length := by rw [hlv] at hv; simpa using hv
     obtain ⟨e1, b1, n1⟩ := twist_spec m0 (2 ^ 64 - 1) (2 ^ 64 - 1) sp ω id (fun x hx => ⟨rfl, hx⟩) v tw0 1
       (by rw [hv', htl]) hu htw
     simp only [id] at e1 b1 n1
-    obtain ⟨e2, n2⟩ := nttLevels_spec t.reduc hr rest (ω * ω) _ _ hrest (by rw [n1, hv']) b1
+    obtain ⟨e2, n2⟩ := nttLevels_spec t.reduc hr rest (ω * ω) _ _ hsched htwr (by rw [n1, hv']) b1
     simp only [List.length_cons, Nat.add_sub_cancel]
     rw [e2, e1, scalePow_eq_scaleFrom]
     exact ⟨rfl, by rw [n2, n1]⟩
@@ -454,38 +484,59 @@ theorem invBfly_spec (r : ReducK) (hr : ReducOK q r) (m : StepMeta) (M : Nat) (h
 
 /-! ### all inverse levels, last pass, whole inverse transform -/
 
-/-- worst-case magnitude after the inverse levels of a block (levels in block-size-descending order) -/
-def invChainOut (q : Nat) (r : ReducK) : List Level → Nat → Nat
+/-- worst-case magnitude after the inverse levels of a block (metadata in block-size-descending order) -/
+def invChainOut (q : Nat) (r : ReducK) : List StepMeta → Nat → Nat
   | [], M => M
-  | (m, tw) :: rest, M => invOut q r m (invChainOut q r rest M) tw.isEmpty
+  | m :: rest, M => invOut q r m (invChainOut q r rest M) rest.isEmpty
 
-def InvLevelsOK (q : Nat) (r : ReducK) : ZMod q → List Level → Nat → Prop
-  | _, [], _ => True
-  | ρ, (m, tw) :: rest, M =>
-    InvLevelsOK q r (ρ * ρ) rest M ∧ invChainOut q r rest M < 2 ^ 64 ∧
-    BflyOK q m (redBound r m.reduce (invChainOut q r rest M)) ∧ tw.length + 1 = 2 ^ rest.length ∧
-    (tw ≠ [] → InvOK q m (redBound r m.reduce (invChainOut q r rest M))) ∧ TwFrom q m.halfBs ρ ρ tw
+/-- the decidable numeric schedule check of the inverse levels of a block -/
+def invSchedOK (q : Nat) (r : ReducK) : List StepMeta → Nat → Bool
+  | [], _ => true
+  | m :: rest, M =>
+    let Min := invChainOut q r rest M
+    let M' := redBound r m.reduce Min
+    invSchedOK q r rest M &&
+    decide (Min < 2 ^ 64) && decide (2 * M' < 2 ^ 64) && decide (M' + m.q2bs < 2 ^ 64) && decide (M' ≤ m.q2bs) &&
+    decide (m.q2bs % q = 0) &&
+    (rest.isEmpty || (decide (q < 2 ^ 31) && decide (m.mask = 2 ^ m.halfBs - 1) && decide (m.halfBs ≤ 32) &&
+      decide (M' < 2 ^ (2 * m.halfBs)) && decide (M' + spmBound q m.halfBs M' < 2 ^ 64) && decide (spmBound q m.halfBs M' ≤ m.q2bs)))
+
+/-- the twiddle conditions of the inverse levels of a block (descending order) with root `ρ` -/
+def InvTwOK (q : Nat) : ZMod q → List Level → Prop
+  | _, [] => True
+  | ρ, (m, tw) :: rest => tw.length + 1 = 2 ^ rest.length ∧ TwFrom q m.halfBs ρ ρ tw ∧ InvTwOK q (ρ * ρ) rest
 
 /-- **the executable inverse levels refine the mathematical network** -/
 theorem inttLevels_spec (r : ReducK) (hr : ReducOK q r) :
-    ∀ (levels : List Level) (ρ : ZMod q) (M : Nat) (v : List Nat), InvLevelsOK q r ρ levels M →
-      v.length = 2 ^ levels.length → AllLe M v →
+    ∀ (levels : List Level) (ρ : ZMod q) (M : Nat) (v : List Nat), invSchedOK q r (levels.map Prod.fst) M = true →
+      InvTwOK q ρ levels → v.length = 2 ^ levels.length → AllLe M v →
       (inttLevels r levels v).map (cz q) = dit ρ levels.length (v.map (cz q)) ∧
-      AllLe (invChainOut q r levels M) (inttLevels r levels v) ∧ (inttLevels r levels v).length = v.length := by
+      AllLe (invChainOut q r (levels.map Prod.fst) M) (inttLevels r levels v) ∧ (inttLevels r levels v).length = v.length := by
   intro levels
   induction levels with
-  | nil => intro ρ M v _ _ h; simpa [inttLevels, dit, invChainOut] using h
+  | nil => intro ρ M v _ _ _ h; simpa [inttLevels, dit, invChainOut] using h
   | cons l rest ih =>
-    intro ρ M v hok hv hle
+    intro ρ M v hs ht hv hle
     obtain ⟨m, tw⟩ := l
-    obtain ⟨hrest, hM, hb, htl, hinv, htw⟩ := hok
+    obtain ⟨htl, htw, htrest⟩ := ht
+    simp only [List.map_cons, invSchedOK, Bool.and_eq_true, decide_eq_true_eq, Bool.or_eq_true, List.isEmpty_map] at hs
+    obtain ⟨⟨⟨⟨⟨⟨hsrest, hM⟩, h1⟩, h2⟩, h3⟩, h4⟩, h5⟩ := hs
+    have hemp := isEmpty_of_len tw rest htl
+    have hb : BflyOK q m (redBound r m.reduce (invChainOut q r (rest.map Prod.fst) M)) := ⟨h1, h2, h3, Nat.dvd_of_mod_eq_zero h4⟩
+    have hinv : tw ≠ [] → InvOK q m (redBound r m.reduce (invChainOut q r (rest.map Prod.fst) M)) := by
+      intro hne
+      have : rest.isEmpty = false := by rw [← hemp]; cases tw <;> simp_all
+      rw [this] at h5
+      simp only [Bool.false_eq_true, false_or] at h5
+      exact ⟨⟨h5.1.1.1.1.1, h5.1.1.1.1.2, h5.1.1.1.2, h5.1.1.2⟩, h5.1.2, h5.2⟩
     have hv' : v.length = 2 ^ (rest.length + 1) := by simpa using hv
-    obtain ⟨h2, hlo, hhi⟩ := halves_length v rest.length hv'
-    obtain ⟨i1, b1, j1⟩ := ih (ρ * ρ) M _ hrest hlo (hle.take _)
-    obtain ⟨i2, b2, j2⟩ := ih (ρ * ρ) M _ hrest hhi (hle.drop _)
+    obtain ⟨_, hlo, hhi⟩ := halves_length v rest.length hv'
+    obtain ⟨i1, b1, j1⟩ := ih (ρ * ρ) M _ hsrest htrest hlo (hle.take _)
+    obtain ⟨i2, b2, j2⟩ := ih (ρ * ρ) M _ hsrest htrest hhi (hle.drop _)
     obtain ⟨e1, e2, c1, c2, n1, n2⟩ := invBfly_spec r hr m _ hM hb ρ tw _ _
       (by rw [j1, hlo]; exact htl) (by rw [j1, j2, hlo, hhi]) b1 b2 hinv htw
-    simp only [inttLevels, List.length_cons, dit, List.map_append, List.length_map, invChainOut]
+    rw [hemp] at c1 c2
+    simp only [inttLevels, List.length_cons, dit, List.map_append, List.length_map, invChainOut, List.map_cons, List.isEmpty_map]
     rw [e1, e2, i1, i2, map_take, map_drop]
     refine ⟨rfl, c1.append c2, ?_⟩
     rw [List.length_append, n1, n2, j1, hlo, hv', pow_succ]; ring
@@ -496,8 +547,9 @@ def InvTableOK (q : Nat) (t : TableK) (ω' ninv : ZMod q) : Prop :=
   match t.levels.reverse with
   | [] => False
   | (mL, twL) :: revL =>
-    InvLevelsOK q t.reduc (ω' * ω') revL (2 ^ 64 - 1) ∧ invChainOut q t.reduc revL (2 ^ 64 - 1) < 2 ^ 64 ∧
-    SpmOK q mL (redBound t.reduc mL.reduce (invChainOut q t.reduc revL (2 ^ 64 - 1))) ∧
+    invSchedOK q t.reduc (revL.map Prod.fst) (2 ^ 64 - 1) = true ∧ InvTwOK q (ω' * ω') revL ∧
+    invChainOut q t.reduc (revL.map Prod.fst) (2 ^ 64 - 1) < 2 ^ 64 ∧
+    SpmOK q mL (redBound t.reduc mL.reduce (invChainOut q t.reduc (revL.map Prod.fst) (2 ^ 64 - 1))) ∧
     twL.length = 2 ^ revL.length ∧ TwFrom q mL.halfBs ω' ninv twL
 
 /-- **`intt_ref` (one lane) computes `inttM ω⁻¹ n⁻¹` modulo `q`** on every `u64` input vector -/
@@ -509,11 +561,11 @@ theorem inttK_spec (t : TableK) (ω' ninv : ZMod q) (ok : InvTableOK q t ω' nin
   have hlen : t.levels.reverse.length = t.levels.length := List.length_reverse
   match hlv : t.levels.reverse, hl with
   | (mL, twL) :: revL, hl =>
-    obtain ⟨hlev, hMw, sp, htl, htw⟩ := hl
+    obtain ⟨hsched, htwo, hMw, sp, htl, htw⟩ := hl
     have hk : t.levels.length - 1 = revL.length := by rw [← hlen, hlv]; simp
     rw [hk] at hv ⊢
-    obtain ⟨e1, b1, n1⟩ := inttLevels_spec t.reduc hr revL (ω' * ω') _ v hlev hv hu
-    obtain ⟨e2, _, n2⟩ := twist_spec mL (invChainOut q t.reduc revL (2 ^ 64 - 1)) _ sp ω' (redIf t.reduc mL)
+    obtain ⟨e1, b1, n1⟩ := inttLevels_spec t.reduc hr revL (ω' * ω') _ v hsched htwo hv hu
+    obtain ⟨e2, _, n2⟩ := twist_spec mL (invChainOut q t.reduc (revL.map Prod.fst) (2 ^ 64 - 1)) _ sp ω' (redIf t.reduc mL)
       (fun x hx => redIf_spec t.reduc hr mL x _ hx hMw) _ twL ninv (by rw [n1, hv, htl]) b1 htw
     simp only []
     rw [e2, e1, scaleFrom_eq_map]
